@@ -29,6 +29,9 @@ type StoreCfg struct {
 	FracDen     int      `json:"FracDen"`
 	Strategy    string   `json:"Strategy"`
 	EvictNeeded bool     `json:"EvictNeeded"`
+	ForceEvict  bool     `json:"ForceEvict"` // a memory soft limit of one byte: breached in every cycle
+	ForceKind   string   `json:"ForceKind"`  // heap | sys
+	Logger      bool     `json:"Logger"`     // attach a logger that accepts every level (call-outs of the backend)
 	Collide     bool     `json:"Collide"`
 	Hash        string   `json:"Hash"`   // HashInj | HashColl: the model's hash function
 	Jitter      float64  `json:"Jitter"` // -1 disabled, 0 library default
@@ -111,6 +114,21 @@ func (c StoreCfg) cacheConfig(name string, st cache.StatsTracker, needed *bool) 
 
 	if c.EvictNeeded {
 		cc.EvictionNeeded = func() bool { return *needed }
+	}
+
+	if c.ForceEvict {
+		if c.ForceKind == "sys" {
+			cc.SysMemSoftLimit = 1
+		} else {
+			cc.HeapInUseSoftLimit = 1
+		}
+	} else {
+		// limits that are configured but never reached must never trigger
+		cc.HeapInUseSoftLimit, cc.SysMemSoftLimit = 1<<62, 1<<62
+	}
+
+	if c.Logger {
+		cc.Logger = sinkLogger{}
 	}
 
 	return cc
@@ -279,6 +297,19 @@ func (r *storeRun) exec(st stepJ) repJ {
 		time.Sleep(r.u)
 
 		return repJ{R: "ok"}
+	case "WalkStop":
+		stop := errors.New("stop")
+
+		n, err := r.be.Walk(func(Ent) error { return stop })
+		if err == nil {
+			return repJ{R: "n", N: n}
+		}
+
+		if !errors.Is(err, stop) {
+			return repJ{R: "error:" + err.Error()}
+		}
+
+		return repJ{R: "stopped", N: n}
 	case "Relay":
 		// Dump through gob, restore into a NEW empty cache of the same family, carry on with that one.
 		var buf bytes.Buffer
@@ -455,6 +486,16 @@ func (r *storeRun) run(t *testing.T, bi int, steps []stepJ) (*Violation, int) {
 	})
 
 	return viol, okN
+}
+
+// sinkLogger accepts every level and formats the message (a logger that looks at its arguments).
+type sinkLogger struct{}
+
+func (sinkLogger) Error(_ context.Context, msg string, kv ...interface{}) { _ = fmt.Sprint(msg, kv) }
+func (sinkLogger) Warn(_ context.Context, msg string, kv ...interface{})  { _ = fmt.Sprint(msg, kv) }
+func (sinkLogger) Debug(_ context.Context, msg string, kv ...interface{}) { _ = fmt.Sprint(msg, kv) }
+func (sinkLogger) Important(_ context.Context, msg string, kv ...interface{}) {
+	_ = fmt.Sprint(msg, kv)
 }
 
 func sameButCounters(a, b []entJ) bool {
